@@ -185,7 +185,7 @@ def run_wiring(case) -> CaseResult:
 CHECK = Check(
     id="C07",
     parts=[Part("rule", run_rule, enumerate=enum_rule, exhaustive={"quick": False, "thorough": True}),
-           Part("wiring", run_wiring, strategy=wiring_cases, budget={"quick": 150, "thorough": 1500})],
+           Part("wiring", run_wiring, strategy=wiring_cases, budget={"quick": 400, "thorough": 10000})],
     rule=("rule: every (depth, residual_mult, residual_attn_ratio) of the grid - thorough: depths 1..256 x 17 x 17 rational values in "
           "[1/16,16] (complete); quick: 35 depths x 5 x 5 - all 2L taus compared with the closed form derived from the statement in "
           "exact Fractions (rel 1e-12) and the five balance statements re-evaluated from the taus alone; wiring: Hypothesis over "
